@@ -1418,4 +1418,296 @@ Lemma inv_reachable sched stoppers : Inv (runF sched (initF pkts stoppers)).
 Proof. apply inv_run, inv_init. Qed.
 
 End Global.
+(* ------------------------------------------------------------------ *)
+(** * 7. The C04 theorems *)
+
+(** ** 7.1 backlog bound *)
+
+(* sharp form: the +1 is the nil element that Close pushes, available only while not closed;
+   a join replay longer than the limit is not increased by the limit *)
+Theorem backlog_bound_tight G pkts stoppers sched c :
+  gap_ok G pkts = true ->
+  let k := s_cs (runF sched (initF pkts stoppers)) c in
+  length (c_q k) + (if c_closed k then 0 else 1)
+    <= Nat.max (S maxq) (length (c_prefill k)) + G.
+Proof.
+  intros Hg k. destruct (inv_reachable G pkts sched stoppers) as [_ _ HC].
+  destruct (HC c) as (_ & _ & HB). destruct (HB Hg) as [H _]. exact H.
+Qed.
+
+Theorem backlog_bound G pkts stoppers sched c :
+  gap_ok G pkts = true ->
+  let k := s_cs (runF sched (initF pkts stoppers)) c in
+  length (c_q k) <= Nat.max maxq (length (c_prefill k)) + G + 1.
+Proof.
+  intros Hg k. pose proof (backlog_bound_tight G pkts stoppers sched c Hg) as H.
+  cbv zeta in H. fold k in H. destruct (c_closed k); lia.
+Qed.
+
+(* while registered and not discarding the queue is within the limit plus the packets since
+   the last key-frame start *)
+Theorem backlog_bound_since G pkts stoppers sched c :
+  gap_ok G pkts = true ->
+  let s := runF sched (initF pkts stoppers) in
+  let k := s_cs s c in
+  c_reg k = true -> c_disc k = false ->
+  length (c_q k) + (if c_closed k then 0 else 1)
+    <= Nat.max (S maxq) (length (c_prefill k)) + since (s_sent s) + 1.
+Proof.
+  intros Hg s k. destruct (inv_reachable G pkts sched stoppers) as [_ _ HC].
+  destruct (HC c) as (_ & _ & HB). destruct (HB Hg) as [_ H]. exact H.
+Qed.
+
+(** ** 7.2 drops are aligned to key-frame starts *)
+
+Theorem drops_gop_aligned pkts stoppers sched c :
+  let s := runF sched (initF pkts stoppers) in
+  let k := s_cs s c in
+  let w := window (s_sent s) (c_regat k) (c_unregat k) in
+  length (c_keep k) = length w /\
+  c_pushed k = c_prefill k ++ select (c_keep k) w /\
+  (forall i d, S i < length (c_keep k) ->
+     nth i (c_keep k) true = false -> nth (S i) (c_keep k) true = true ->
+     p_key (nth (S i) w d) = true) /\
+  (forall i d, S i < length (c_keep k) ->
+     nth i (c_keep k) true = true -> nth (S i) (c_keep k) true = false ->
+     p_key (nth (S i) w d) = true) /\
+  (forall d, 0 < length (c_keep k) -> nth 0 (c_keep k) true = false -> p_key (nth 0 w d) = true).
+Proof.
+  intros s k w. destruct (inv_reachable 0 pkts sched stoppers) as [_ _ HC].
+  destruct (HC c) as (H0 & _). fold s k in H0.
+  pose proof (ci_align _ _ _ H0) as Ha. fold w in Ha.
+  split; [eapply aligned_length; exact Ha|]. split; [exact (ci_pushed _ _ _ H0)|].
+  split; [|split].
+  - intros i d Hi E1 E2. destruct (aligned_nth _ _ _ d Ha) as [H _]. apply H; [exact Hi|congruence].
+  - intros i d Hi E1 E2. destruct (aligned_nth _ _ _ d Ha) as [H _]. apply H; [exact Hi|congruence].
+  - intros d Hl E. destruct (aligned_nth _ _ _ d Ha) as [_ H]. apply H; [exact Hl|congruence].
+Qed.
+
+Lemma first_true_after (f : nat -> bool) : forall n i j,
+  j - i = n -> i < j -> f i = false -> f j = true ->
+  exists m, i < m /\ m <= j /\ f m = true /\ (forall x, i <= x -> x < m -> f x = false).
+Proof.
+  induction n as [|n IH]; intros i j Hn Hij Ei Ej; [lia|].
+  destruct (f (S i)) eqn:E.
+  - exists (S i). split; [lia|]. split; [lia|]. split; [exact E|].
+    intros x H1 H2. assert (x = i) by lia. now subst x.
+  - assert (S i <> j) by (intros <-; congruence).
+    destruct (IH (S i) j) as (m & M1 & M2 & M3 & M4); [lia|lia|exact E|exact Ej|].
+    exists m. split; [lia|]. split; [exact M2|]. split; [exact M3|].
+    intros x H1 H2. destruct (Nat.eq_dec x i) as [->|Hne]; [exact Ei|]. apply M4; lia.
+Qed.
+
+(* hence: the first packet queued after a dropped one starts a key frame *)
+Corollary first_kept_after_drop_is_key pkts stoppers sched c :
+  let s := runF sched (initF pkts stoppers) in
+  let k := s_cs s c in
+  let w := window (s_sent s) (c_regat k) (c_unregat k) in
+  forall i j d, i < j -> j < length (c_keep k) ->
+    nth i (c_keep k) true = false -> nth j (c_keep k) true = true ->
+    exists m, i < m /\ m <= j /\ nth m (c_keep k) true = true /\
+              (forall x, i <= x -> x < m -> nth x (c_keep k) true = false) /\
+              p_key (nth m w d) = true.
+Proof.
+  intros s k w i j d Hij Hj Ei Ej.
+  destruct (drops_gop_aligned pkts stoppers sched c) as (_ & _ & H1 & _). fold s k w in H1.
+  destruct (first_true_after (fun x => nth x (c_keep k) true) (j - i) i j eq_refl Hij Ei Ej)
+    as (m & M1 & M2 & M3 & M4).
+  exists m. split; [exact M1|]. split; [exact M2|]. split; [exact M3|]. split; [exact M4|].
+  destruct m as [|m]; [lia|]. apply H1; [lia|apply M4; lia|exact M3].
+Qed.
+
+(** ** 7.3 the publisher never waits on a consumer *)
+
+Notation step_pubF := (step_pub fixed maxq cache_t cache_add cache_snap ncons).
+Notation step_attF := (step_att fixed cache_t cache_add cache_snap).
+Notation step_stopF := (step_stop fixed cache_t).
+Notation step_consF := (step_cons fixed cache_t panic_at).
+
+(* in any state whatsoever: the publisher's next step is enabled unless it has nothing to write
+   or is queued behind the join mutex; no consumer field is consulted *)
+Lemma publisher_enabled (s : state) :
+  step_pubF s = None -> s_todo s = [] \/ s_pp s = P1W.
+Proof.
+  unfold step_pub. destruct (s_pp s), (s_todo s); try discriminate; auto.
+  destruct (s_ok s); discriminate.
+Qed.
+
+Lemma waiting_publisher_holder (s : state) :
+  LInv s -> s_pp s = P1W ->
+  exists c, c < ncons /\ s_lock s = Some (HAtt c) /\ s_att s c = A1 /\
+            step_attF s c <> None /\ stepF s (TAtt c) <> None.
+Proof.
+  intros HL Epp. unfold LInv in HL. pose proof HL as HL0. linv_break HL.
+  assert (Hin : In HPub (s_lockq s)) by now apply Lqpub.
+  destruct (s_lock s) as [[|c]|] eqn:El.
+  - assert (E : s_pp s = P2) by now apply Lpub. congruence.
+  - assert (Ea : s_att s c = A1) by now apply Latt.
+    assert (Hc : c < ncons).
+    { destruct (Nat.lt_ge_cases c ncons) as [?|Hge]; [assumption|]. rewrite (Lrng c Hge) in Ea. discriminate. }
+    exists c. split; [exact Hc|]. split; [reflexivity|]. split; [exact Ea|].
+    assert (Hs : step_attF s c <> None) by (unfold step_att; rewrite Ea; discriminate).
+    split; [exact Hs|]. simpl. destruct (Nat.ltb_spec c ncons); [exact Hs|lia].
+  - rewrite (Lfree eq_refl) in Hin. destruct Hin.
+Qed.
+
+Theorem publisher_never_waits_on_consumer pkts stoppers sched :
+  let s := runF sched (initF pkts stoppers) in
+  (step_pubF s = None -> s_todo s = [] \/ s_pp s = P1W) /\
+  (s_pp s = P1W ->
+   exists c, c < ncons /\ s_lock s = Some (HAtt c) /\ s_att s c = A1 /\
+             step_attF s c <> None /\ stepF s (TAtt c) <> None).
+Proof.
+  intros s. split; [apply publisher_enabled|].
+  apply waiting_publisher_holder. apply (inv_l 0 pkts). apply inv_reachable.
+Qed.
+
+(* the holder's single step inside the section hands the mutex to the first waiter: the queue
+   is served in FIFO order, so a queued publisher is preceded by at most the attachers that
+   queued before it, each of which needs exactly one (always enabled) step *)
+Lemma holder_step_serves_queue (s : state) c s' :
+  LInv s -> s_lock s = Some (HAtt c) -> stepF s (TAtt c) = Some s' ->
+  match s_lockq s with
+  | [] => s_lock s' = None /\ s_lockq s' = []
+  | HPub :: r => s_lock s' = Some HPub /\ s_lockq s' = r /\ s_pp s' = P2
+  | HAtt c' :: r => s_lock s' = Some (HAtt c') /\ s_lockq s' = r /\ s_pp s' = s_pp s
+  end.
+Proof.
+  intros HL El Hstep. unfold LInv in HL. pose proof HL as HL0. linv_break HL.
+  assert (Ea : s_att s c = A1) by now apply Latt.
+  simpl in Hstep. destruct (c <? ncons); [|discriminate].
+  unfold step_att in Hstep. rewrite Ea in Hstep. injection Hstep as <-.
+  unfold release. cbn [v_lock fixed]. ssimpl.
+  destruct (s_lockq s) as [|[|c'] r] eqn:Eq.
+  - ssimpl. auto.
+  - assert (Epp : s_pp s = P1W) by (apply Lqpub; now left).
+    unfold after_acquire. ssimpl. destruct (s_todo s) eqn:Et; [elim (Ltodo Epp); reflexivity|].
+    ssimpl. auto.
+  - unfold after_acquire. ssimpl. auto.
+Qed.
+
+(** ** 7.4 a stalled consumer does not affect the others *)
+
+(* steps of the goroutines that belong to another consumer leave this consumer alone *)
+Lemma cons_step_frame (s : state) c' s' c :
+  c' <> c -> stepF s (TCons c') = Some s' -> s_cs s' c = s_cs s c.
+Proof.
+  intros Hne Hstep. simpl in Hstep. destruct (c' <? ncons); [|discriminate].
+  destruct (step_cons_spec _ _ _ Hstep) as (k' & _ & Ecs & _). rewrite Ecs. now apply upd_other.
+Qed.
+
+Lemma stop_step_frame (s : state) c' s' c :
+  c' <> c -> stepF s (TStop c') = Some s' -> s_cs s' c = s_cs s c.
+Proof.
+  intros Hne Hstep. simpl in Hstep. destruct (c' <? ncons); [|discriminate].
+  destruct (s_att s c'); try discriminate.
+  unfold step_stop in Hstep. cbn [v_atomic fixed] in Hstep.
+  destruct (s_stp s c'); try discriminate.
+  - destruct (c_reg (s_cs s c')); injection Hstep as <-; ssimpl; [now apply upd_other|reflexivity].
+  - injection Hstep as <-. ssimpl. now apply upd_other.
+Qed.
+
+(* the attacher of another consumer: in the model the goroutine that releases the join mutex
+   also performs the first waiter's entry into the section (its cache snapshot), so the
+   statement needs "c is not the first waiter" *)
+Lemma att_step_frame_raw (s : state) c' s' c :
+  c' <> c -> hd_error (s_lockq s) <> Some (HAtt c) ->
+  stepF s (TAtt c') = Some s' -> s_cs s' c = s_cs s c.
+Proof.
+  intros Hne Hhd Hstep. simpl in Hstep. destruct (c' <? ncons); [|discriminate].
+  unfold step_att in Hstep. destruct (s_att s c') eqn:Ea; try discriminate.
+  - injection Hstep as <-. unfold acquire. cbn [v_lock fixed].
+    destruct (s_lock s); [reflexivity|]. unfold after_acquire. ssimpl. now apply upd_other.
+  - injection Hstep as <-. unfold release. cbn [v_lock fixed]. ssimpl.
+    destruct (s_lockq s) as [|[|c''] r].
+    + ssimpl. now apply upd_other.
+    + unfold after_acquire. ssimpl. destruct (s_todo s); ssimpl; now apply upd_other.
+    + unfold after_acquire. ssimpl. rewrite upd_other; [now apply upd_other|].
+      intros ->. apply Hhd. reflexivity.
+  - cbn [v_recheck fixed] in Hstep.
+    destruct (true && negb (s_ok s) && c_reg (s_cs s c')); injection Hstep as <-; ssimpl;
+      now apply upd_other.
+Qed.
+
+Lemma att_step_frame (s : state) c' s' c :
+  LInv s -> s_att s c <> A0W -> c' <> c ->
+  stepF s (TAtt c') = Some s' -> s_cs s' c = s_cs s c.
+Proof.
+  intros HL Ha Hne. apply att_step_frame_raw; [exact Hne|].
+  intros E. apply Ha. apply (l_qatt _ _ _ _ _ HL).
+  destruct (s_lockq s) as [|h r]; [discriminate|]. injection E as ->. now left.
+Qed.
+
+Theorem stalled_consumer_does_not_affect_others pkts stoppers sched c c' :
+  c' <> c ->
+  let s := runF sched (initF pkts stoppers) in
+  (forall s', stepF s (TCons c') = Some s' -> s_cs s' c = s_cs s c) /\
+  (forall s', stepF s (TStop c') = Some s' -> s_cs s' c = s_cs s c) /\
+  (forall s', s_att s c <> A0W -> stepF s (TAtt c') = Some s' -> s_cs s' c = s_cs s c) /\
+  (forall p, send_all maxq ncons (s_cs s) p c =
+             if (c <? ncons) && c_reg (s_cs s c) then send maxq (s_cs s c) p else s_cs s c) /\
+  (forall sent, fst (sweep fixed ncons (s_cs s) sent) c =
+             if (c <? ncons) && c_reg (s_cs s c)
+             then close_cons fixed (set_reg (s_cs s c) false sent) else s_cs s c).
+Proof.
+  intros Hne s. split; [|split; [|split; [|split]]].
+  - intros s'. now apply cons_step_frame.
+  - intros s'. now apply stop_step_frame.
+  - intros s' Ha. apply att_step_frame; [|exact Ha|exact Hne].
+    apply (inv_l 0 pkts). apply inv_reachable.
+  - intros p. apply send_all_at.
+  - intros sent. apply sweep_at.
+Qed.
+
+(** ** 7.5 a panicking consumer is detached and closed *)
+
+Definition quiescent (s : state) : Prop := forall t, stepF s t = None.
+
+Theorem panic_detaches pkts stoppers sched c :
+  0 < panic_at c ->
+  let s := runF sched (initF pkts stoppers) in
+  let k := s_cs s c in
+  length (c_out k) <= panic_at c /\
+  (c_closes k = 1 <-> c_pc k = CDone) /\ c_closes k <= 1 /\
+  (panic_at c <= length (c_out k) ->
+     (c_pc k = CExitLoaded \/ c_pc k = CDone) /\ c_reg k = false /\
+     (c_pc k = CExitLoaded ->
+        exists s', stepF s (TCons c) = Some s' /\
+                   c_pc (s_cs s' c) = CDone /\ c_closes (s_cs s' c) = 1) /\
+     (quiescent s -> c_pc k = CDone /\ c_closes k = 1)).
+Proof.
+  intros Hn s k. pose proof (inv_reachable 0 pkts sched stoppers) as HI. fold s in HI.
+  destruct HI as [HL _ HC]. destruct (HC c) as (H0 & HP & _). fold k in H0, HP.
+  destruct (ci_closes _ _ _ H0) as [Hc1 Hc2].
+  assert (Hle : length (c_out k) <= panic_at c).
+  { destruct (HP Hn) as [?|(E & _)]; lia. }
+  split; [exact Hle|]. split; [|split].
+  - split; [|exact Hc1]. intros E. destruct (c_pc k) eqn:Epc; try reflexivity;
+      (rewrite Hc2 in E; [discriminate|discriminate]).
+  - destruct (c_pc k) eqn:Epc; try (rewrite Hc2; [lia|discriminate]). rewrite Hc1; auto.
+  - intros Hge. destruct (HP Hn) as [Hlt|(_ & Hp & Hr)]; [lia|].
+    split; [exact Hp|]. split; [exact Hr|].
+    assert (Hc : c < ncons).
+    { destruct (Nat.lt_ge_cases c ncons) as [?|Hge']; [assumption|exfalso].
+      assert (Ea : s_att s c = ADone).
+      { apply (ci_pc _ _ _ H0). fold k. destruct Hp as [Hp|Hp]; rewrite Hp; discriminate. }
+      rewrite (l_rng _ _ _ _ _ HL c Hge') in Ea. discriminate. }
+    assert (Hexit : c_pc k = CExitLoaded ->
+        exists s', stepF s (TCons c) = Some s' /\
+                   c_pc (s_cs s' c) = CDone /\ c_closes (s_cs s' c) = 1).
+    { intros Epc. simpl. destruct (Nat.ltb_spec c ncons); [|lia].
+      destruct (step_consF s c) as [s'|] eqn:Es.
+      - exists s'. split; [reflexivity|].
+        destruct (step_cons_spec _ _ _ Es) as (k' & En & Ecs & _).
+        unfold cons_next in En. fold k in En. rewrite Epc in En. injection En as <-.
+        rewrite Ecs, upd_same. csimpl. split; [reflexivity|].
+        destruct (close_view k) as (q' & pc' & E & _ & Hst). rewrite E. csimpl.
+        rewrite Hc2; [reflexivity|congruence].
+      - exfalso. unfold step_cons in Es. fold k in Es. rewrite Epc in Es. discriminate. }
+    split; [exact Hexit|].
+    intros Hq. destruct Hp as [Hp|Hp].
+    + destruct (Hexit Hp) as (s' & Es & _). rewrite (Hq (TCons c)) in Es. discriminate.
+    + split; [exact Hp|auto].
+Qed.
+
 End Backlog.
